@@ -1,9 +1,12 @@
 (** C13 - whitespace and comments do not change what is diagnosed. Statements only.
     A trivia rewrite moves tokens (an injective, order-preserving map on byte ranges) and leaves
     names alone.  Proved: the scope analysis and the undefined_variable / shadowing reports commute
-    with every injective map on ranges (they only ever compare ranges for equality).  All other
-    lints are covered by the metamorphic run (program vs trivia-rewritten twin, every lint). *)
+    with every injective map on ranges (they only ever compare ranges for equality); the sixteen
+    syntactic lints modelled for C04 (Lints/Closed.v, Lints/Same.v) give the same counts on the tree
+    moved by *any* map on ranges (they never look at a position).  All lints, modelled or not, are also
+    covered by the metamorphic run (program vs trivia-rewritten twin). *)
 From Selene Require Import Lua.Map Scope.Interp Scope.Equivariance Scope.EquivInterp Lints.ScopeLints Lints.ScopeLintsEquiv.
+From Selene Require Lints.Closed Lints.Same Lints.ClosedEquiv.
 
 Theorem C13_scope_shift_equivariant : forall phi, (forall a b, phi a = phi b -> a = b) -> forall chunk,
   scope_manager (map_block (fun s => s) phi chunk) = option_map (map_st (fun s => s) phi) (scope_manager chunk).
@@ -21,3 +24,17 @@ Theorem C13_shadowing_shift_equivariant : forall phi s,
   shadowing_report (map_st (fun x => x) phi s) = map (fun p => (phi (fst p), phi (snd p))) (shadowing_report s).
 Proof. intros phi s. apply shadowing_report_equivariant; auto. Qed.
 Print Assumptions C13_shadowing_shift_equivariant.
+
+(** divide_by_zero, compare_nan, suspicious_reverse_loop, empty_if, empty_loop, unbalanced_assignments, mixed_table,
+    duplicate_keys, parenthese_conditions, constant_table_comparison, type_check_inside_call: the same number of
+    reports on the moved tree, whatever the map on positions *)
+Theorem C13_closed_lints_position_free : forall phi chunk,
+  Closed.lint_counts (map_block (fun s => s) phi chunk) = Closed.lint_counts chunk.
+Proof. exact ClosedEquiv.lint_counts_moved. Qed.
+Print Assumptions C13_closed_lints_position_free.
+
+(** ifs_same_cond, if_same_then_else, almost_swapped (and has_side_effects, and the token texts they compare) *)
+Theorem C13_same_text_lints_position_free : forall phi chunk,
+  Same.same_lint_counts (map_block (fun s => s) phi chunk) = Same.same_lint_counts chunk.
+Proof. exact ClosedEquiv.same_lint_counts_moved. Qed.
+Print Assumptions C13_same_text_lints_position_free.
